@@ -11,8 +11,8 @@ LEVEL = "exploration"
 SHARDS = {"quick": 8, "thorough": 16}
 RULE = (
     "deployments of 1-3 generated drivers (1-3 groups, all five vector kinds, inheritance depth <= 3, enabled/disabled groups, "
-    "vectors and elements) on a real Router, brought to a state by <= 15 driver-side ops (values, BLOBs set/unset, states, "
-    "vector/group enable/disable, selections), then one getProperties request with device in {each existing, unknown, absent} "
+    "vectors and elements; a third of the cases also register the library's Proxy driver, unconnected) on a real Router, brought to a state by <= 15 driver-side ops (values, BLOBs set/unset, states, "
+    "vector/group enable/disable, selections, re-publication, reset to defaults, hide-group / toggle / show-group macros), then one getProperties request with device in {each existing, unknown, absent} "
     "and name in {enabled, disabled, unknown, absent}. Oracle: the multiset of def* messages a recording client receives equals "
     "the expectation computed from the spec and the driver's public attributes (one per enabled property of each addressed "
     "device or only the named one; device/name/group/label/state/perm/rule/timeout; one child per enabled element with "
